@@ -3,15 +3,328 @@
 From Coq Require Import Permutation Lia.
 From GW Require Import Base CardXml CardWire CardWireProofs.
 
+Lemma existsb_false' {A} (f : A -> bool) l : (forall x, In x l -> f x = false) -> existsb f l = false.
+Proof. induction l; simpl; intros H; auto. rewrite H, IHl; auto. Qed.
+
+(* ------------------------------------------------------------------------- *)
+(** * The decoder's attribute filter (unqualifiedAttrReader) and the reference reader:
+      a document the reader accepts is read alike after the filter, and the filtered
+      document carries no colliding declaration. *)
+
+Definition strip3 (e : elem3) : elem3 :=
+  (fst (fst e), strip_attrs (snd (fst e)), map strip_qualified (snd e)).
+
+Lemma real_attrs_strip fs a : attrs_ok fs a = true -> real_attrs (strip_attrs a) = real_attrs a.
+Proof.
+  intros H. apply attrs_ok_split in H. destruct H as [H _].
+  unfold real_attrs, strip_attrs in *. induction a as [|x a IH]; [reflexivity|].
+  cbn [filter] in *. destruct (is_nsdecl x) eqn:N; cbn [negb] in *.
+  - destruct (unqualified x); cbn [filter]; [rewrite N; cbn [negb]|]; apply IH, H.
+  - cbn [forallb] in H. apply andb_true_iff in H. destruct H as [Hx H].
+    apply attr_in_cases in Hx. destruct Hx as [Hns _].
+    unfold unqualified. rewrite Hns. cbn [String.eqb filter]. rewrite N. cbn [negb]. f_equal. apply IH, H.
+Qed.
+
+Lemma attrs_ok_strip fs a : attrs_ok fs a = true -> attrs_ok fs (strip_attrs a) = true.
+Proof. intros H. unfold attrs_ok. rewrite (real_attrs_strip fs a H). exact H. Qed.
+
+Lemma get_attr_strip fs l a : attrs_ok fs a = true -> get_attr l (strip_attrs a) = get_attr l a.
+Proof. intros H. unfold get_attr. rewrite (real_attrs_strip fs a H). reflexivity. Qed.
+
+Lemma elems_strip k es : elems k = Some es -> elems (map strip_qualified k) = Some (map strip3 es).
+Proof.
+  revert es. induction k as [|x k IH]; simpl; intros es H.
+  - inversion H; reflexivity.
+  - destruct x as [n a kk|s|s]; simpl.
+    + destruct (elems k) as [es'|]; simpl in H; [|discriminate]. inversion H; subst.
+      rewrite (IH es' eq_refl). reflexivity.
+    + destruct (is_ws s); [auto|discriminate].
+    + auto.
+Qed.
+
+Lemma pcdata_strip k : pcdata (map strip_qualified k) = pcdata k.
+Proof.
+  induction k as [|x k IH]; simpl; auto. destruct x; simpl; auto. rewrite IH. reflexivity.
+Qed.
+
+Lemma no_content_strip k : no_content (map strip_qualified k) = no_content k.
+Proof. destruct k; reflexivity. Qed.
+
+Lemma is_empty_elem_strip name e : is_empty_elem name e = true -> is_empty_elem name (strip3 e) = true.
+Proof.
+  destruct e as [[n a] k]. unfold is_empty_elem, strip3. cbn [fst snd]. intros H.
+  apply andb_true_iff in H. destruct H as [H Hk]. apply andb_true_iff in H. destruct H as [Hn Ha].
+  rewrite Hn, (attrs_ok_strip _ _ Ha), no_content_strip, Hk. reflexivity.
+Qed.
+
+Lemma is_empty_elem_strip_name name e : is_empty_elem name (strip3 e) = true -> fst (fst e) = name.
+Proof. destruct e as [[n a] k]. unfold strip3. cbn [fst snd]. apply is_empty_elem_name. Qed.
+
+Lemma ite_strip {X} name c (A : option X) (B : elem3 -> option X) v :
+  (forall v, B c = Some v -> fst (fst c) <> name) ->
+  (forall v, B c = Some v -> B (strip3 c) = Some v) ->
+  (if is_empty_elem name c then A else B c) = Some v ->
+  (if is_empty_elem name (strip3 c) then A else B (strip3 c)) = Some v.
+Proof.
+  intros Hn Hs H. destruct (is_empty_elem name c) eqn:E.
+  - rewrite (is_empty_elem_strip _ _ E). exact H.
+  - destruct (is_empty_elem name (strip3 c)) eqn:E'; [|apply Hs, H].
+    apply is_empty_elem_strip_name in E'. exfalso. exact (Hn _ H E').
+Qed.
+
+Lemma omapM_strip {B} (f : elem3 -> option B) es l :
+  (forall e v, f e = Some v -> f (strip3 e) = Some v) ->
+  omapM f es = Some l -> omapM f (map strip3 es) = Some l.
+Proof.
+  intros H. revert l. induction es as [|e es IH]; simpl; intros l E; auto.
+  apply obind_some in E. destruct E as [y [Ey E]]. apply obind_some in E. destruct E as [ys [Eys E]].
+  rewrite (H _ _ Ey). simpl. rewrite (IH _ Eys). exact E.
+Qed.
+
+Lemma read_tm_strip e t : read_tm e = Some t -> read_tm (strip3 e) = Some t.
+Proof.
+  destruct e as [[n a] k]. unfold strip3, read_tm. cbn [fst snd].
+  destruct (qname_eqb n (C "text-match")); [|discriminate]. cbn [negb].
+  destruct (attrs_ok ["collation"; "negate-condition"; "match-type"] a) eqn:Ea; [|discriminate]. cbn [negb].
+  rewrite (attrs_ok_strip _ _ Ea), !(get_attr_strip _ _ _ Ea), pcdata_strip. cbn [negb]. auto.
+Qed.
+
+Lemma read_param_strip e p : read_param e = Some p -> read_param (strip3 e) = Some p.
+Proof.
+  destruct e as [[n a] k]. unfold strip3, read_param. cbn [fst snd].
+  destruct (qname_eqb n (C "param-filter")); [|discriminate]. cbn [negb].
+  destruct (attrs_ok ["name"] a) eqn:Ea; [|discriminate]. cbn [negb].
+  rewrite (attrs_ok_strip _ _ Ea), (get_attr_strip _ _ _ Ea). cbn [negb].
+  destruct (get_attr "name" a) as [name|]; cbn [obind]; [|discriminate].
+  destruct (elems k) as [es|] eqn:Ek; cbn [obind]; [|discriminate].
+  rewrite (elems_strip _ _ Ek). cbn [obind].
+  destruct es as [|c [|c2 es]]; cbn [map]; auto.
+  apply (ite_strip (C "is-not-defined") c _ (fun c => olet t <- read_tm c; Some (mkRP name (RParamText t)))).
+  - intros v Hv. apply obind_some in Hv. destruct Hv as [t [Ht _]].
+    destruct c as [[n1 a1] k1]. apply read_tm_name in Ht. cbn [fst]. subst n1. intros X. discriminate X.
+  - intros v Hv. apply obind_some in Hv. destruct Hv as [t [Ht Hv]]. rewrite (read_tm_strip _ _ Ht). exact Hv.
+Qed.
+
+Lemma read_pf_kids_strip es x : read_pf_kids es = Some x -> read_pf_kids (map strip3 es) = Some x.
+Proof.
+  revert x. induction es as [|e es IH]; cbn [read_pf_kids map]; intros x H; auto.
+  apply obind_some in H. destruct H as [rest [Hr H]]. rewrite (IH _ Hr). cbn [obind].
+  replace (fst (fst (strip3 e))) with (fst (fst e)) by (destruct e as [[? ?] ?]; reflexivity).
+  destruct (qname_eqb (fst (fst e)) (C "text-match")).
+  - apply obind_some in H. destruct H as [t [Ht H]]. rewrite (read_tm_strip _ _ Ht). exact H.
+  - destruct (qname_eqb (fst (fst e)) (C "param-filter")); [|discriminate].
+    apply obind_some in H. destruct H as [p [Hp H]]. rewrite (read_param_strip _ _ Hp). exact H.
+Qed.
+
+Lemma read_pf_kids_names c x : read_pf_kids [c] = Some x -> fst (fst c) <> C "is-not-defined".
+Proof.
+  simpl. destruct (qname_eqb (fst (fst c)) (C "text-match")) eqn:E1.
+  - intros _. apply qname_eqb_spec in E1. rewrite E1. discriminate.
+  - destruct (qname_eqb (fst (fst c)) (C "param-filter")) eqn:E2; [|discriminate].
+    intros _. apply qname_eqb_spec in E2. rewrite E2. discriminate.
+Qed.
+
+Lemma read_pf_strip e f : read_pf e = Some f -> read_pf (strip3 e) = Some f.
+Proof.
+  destruct e as [[n a] k]. unfold strip3, read_pf. cbn [fst snd].
+  destruct (qname_eqb n (C "prop-filter")); [|discriminate]. cbn [negb].
+  destruct (attrs_ok ["name"; "test"] a) eqn:Ea; [|discriminate]. cbn [negb].
+  rewrite (attrs_ok_strip _ _ Ea), !(get_attr_strip _ _ _ Ea). cbn [negb].
+  destruct (get_attr "name" a) as [name|]; cbn [obind]; [|discriminate].
+  destruct (val_test (get_attr "test" a)) as [t|]; cbn [obind]; [|discriminate].
+  destruct (elems k) as [es|] eqn:Ek; cbn [obind]; [|discriminate].
+  rewrite (elems_strip _ _ Ek). cbn [obind].
+  assert (G : forall v, (olet x <- read_pf_kids es; Some (mkRF name t (RPropMatches (fst x) (snd x)))) = Some v ->
+                        (olet x <- read_pf_kids (map strip3 es); Some (mkRF name t (RPropMatches (fst x) (snd x)))) = Some v).
+  { intros v Hv. apply obind_some in Hv. destruct Hv as [x [Hx Hv]]. rewrite (read_pf_kids_strip _ _ Hx). exact Hv. }
+  destruct es as [|c [|c2 es]]; try apply G.
+  cbn [map]. apply (ite_strip (C "is-not-defined") c _ (fun c => olet x <- read_pf_kids [c]; Some (mkRF name t (RPropMatches (fst x) (snd x))))).
+  - intros v Hv. apply obind_some in Hv. destruct Hv as [x [Hx _]]. exact (read_pf_kids_names _ _ Hx).
+  - intros v. apply (G v).
+Qed.
+
+Lemma read_filter_strip e x : read_filter e = Some x -> read_filter (strip3 e) = Some x.
+Proof.
+  destruct e as [[n a] k]. unfold strip3, read_filter. cbn [fst snd].
+  destruct (qname_eqb n (C "filter")); [|discriminate]. cbn [negb].
+  destruct (attrs_ok ["test"] a) eqn:Ea; [|discriminate]. cbn [negb].
+  rewrite (attrs_ok_strip _ _ Ea), (get_attr_strip _ _ _ Ea). cbn [negb].
+  destruct (val_test (get_attr "test" a)) as [t|]; cbn [obind]; [|discriminate].
+  destruct (elems k) as [es|] eqn:Ek; cbn [obind]; [|discriminate].
+  rewrite (elems_strip _ _ Ek). cbn [obind]. intros H.
+  apply obind_some in H. destruct H as [fs [Hfs H]]. rewrite (omapM_strip read_pf es fs read_pf_strip Hfs). exact H.
+Qed.
+
+Lemma read_limit_strip e l : read_limit e = Some l -> read_limit (strip3 e) = Some l.
+Proof.
+  destruct e as [[n a] k]. unfold strip3, read_limit. cbn [fst snd].
+  destruct (qname_eqb n (C "limit")); [|discriminate].
+  destruct (attrs_ok [] a) eqn:Ea; [|discriminate]. rewrite (attrs_ok_strip _ _ Ea). cbn [andb negb].
+  destruct (elems k) as [es|] eqn:Ek; cbn [obind]; [|discriminate].
+  rewrite (elems_strip _ _ Ek). cbn [obind].
+  destruct es as [|[[n1 a1] k1] [|c2 es]]; cbn [map strip3 fst snd]; auto.
+  destruct (qname_eqb n1 (C "nresults")); [|discriminate].
+  destruct (attrs_ok [] a1) eqn:Ea1; [|discriminate]. rewrite (attrs_ok_strip _ _ Ea1). cbn [andb negb].
+  rewrite pcdata_strip. auto.
+Qed.
+
+Lemma read_cprop_strip e s : read_cprop e = Some s -> read_cprop (strip3 e) = Some s.
+Proof.
+  destruct e as [[n a] k]. unfold strip3, read_cprop. cbn [fst snd].
+  destruct (qname_eqb n (C "prop")); [|discriminate].
+  destruct (attrs_ok ["name"; "novalue"] a) eqn:Ea; [|discriminate].
+  rewrite (attrs_ok_strip _ _ Ea), no_content_strip, !(get_attr_strip _ _ _ Ea). auto.
+Qed.
+
+Lemma read_cprop_name c s : read_cprop c = Some s -> fst (fst c) = C "prop".
+Proof.
+  destruct c as [[n a] k]. unfold read_cprop. destruct (qname_eqb n (C "prop")) eqn:E; [|discriminate].
+  intros _. apply qname_eqb_spec in E. exact E.
+Qed.
+
+Lemma read_data_strip e d : read_data e = Some d -> read_data (strip3 e) = Some d.
+Proof.
+  destruct e as [[n a] k]. unfold strip3, read_data. cbn [fst snd].
+  destruct (qname_eqb n (C "address-data")); [|discriminate].
+  destruct (attrs_ok [] a) eqn:Ea; [|discriminate]. rewrite (attrs_ok_strip _ _ Ea). cbn [andb negb].
+  destruct (elems k) as [es|] eqn:Ek; cbn [obind]; [|discriminate].
+  rewrite (elems_strip _ _ Ek). cbn [obind].
+  assert (G : forall v, (olet names <- omapM read_cprop es; Some (RProps names)) = Some v ->
+                        (olet names <- omapM read_cprop (map strip3 es); Some (RProps names)) = Some v).
+  { intros v Hv. apply obind_some in Hv. destruct Hv as [x [Hx Hv]].
+    rewrite (omapM_strip read_cprop es x read_cprop_strip Hx). exact Hv. }
+  destruct es as [|c [|c2 es]]; try apply G.
+  cbn [map]. apply (ite_strip (C "allprop") c _ (fun c => olet names <- omapM read_cprop [c]; Some (RProps names))).
+  - intros v Hv. apply obind_some in Hv. destruct Hv as [x [Hx _]]. simpl in Hx.
+    apply obind_some in Hx. destruct Hx as [s [Hs _]]. rewrite (read_cprop_name _ _ Hs). discriminate.
+  - intros v. apply (G v).
+Qed.
+
+Lemma read_item_strip e i : read_item e = Some i -> read_item (strip3 e) = Some i.
+Proof.
+  unfold read_item. replace (fst (fst (strip3 e))) with (fst (fst e)) by (destruct e as [[? ?] ?]; reflexivity).
+  destruct (qname_eqb (fst (fst e)) (C "address-data")); auto.
+  intros H. apply obind_some in H. destruct H as [d [Hd H]]. rewrite (read_data_strip _ _ Hd). exact H.
+Qed.
+
+Lemma read_sel_strip e s : read_sel e = Some s -> read_sel (strip3 e) = Some s.
+Proof.
+  unfold read_sel. destruct e as [[n a] k].
+  set (B2 := fun e : elem3 => let '(n, a, k) := e in
+               if qname_eqb n (D "prop") && attrs_ok [] a
+               then olet es <- elems k; olet items <- omapM read_item es; Some (RSelProp items) else None).
+  set (B1 := fun e : elem3 => if is_empty_elem (D "propname") e then Some RSelPropName else B2 e).
+  assert (H2n : forall v, B2 (n, a, k) = Some v -> n = D "prop").
+  { unfold B2. intros v. destruct (qname_eqb n (D "prop")) eqn:E; [|discriminate]. intros _. apply qname_eqb_spec, E. }
+  assert (H2s : forall v, B2 (n, a, k) = Some v -> B2 (strip3 (n, a, k)) = Some v).
+  { unfold B2, strip3. cbn [fst snd]. intros v. destruct (qname_eqb n (D "prop")); [|discriminate].
+    destruct (attrs_ok [] a) eqn:Ea; [|discriminate]. rewrite (attrs_ok_strip _ _ Ea). cbn [andb].
+    destruct (elems k) as [es|] eqn:Ek; cbn [obind]; [|discriminate]. rewrite (elems_strip _ _ Ek). cbn [obind].
+    intros H. apply obind_some in H. destruct H as [items [Hi H]].
+    rewrite (omapM_strip read_item es items read_item_strip Hi). exact H. }
+  assert (H1s : forall v, B1 (n, a, k) = Some v -> B1 (strip3 (n, a, k)) = Some v).
+  { intros v. unfold B1. apply ite_strip; [|exact H2s].
+    intros v' Hv'. cbn [fst]. rewrite (H2n _ Hv'). discriminate. }
+  intros H.
+  apply (ite_strip (D "allprop") (n, a, k) (Some RSelAllProp) B1 s); [|exact H1s|exact H].
+  intros v Hv. cbn [fst]. unfold B1 in Hv. destruct (is_empty_elem (D "propname") (n, a, k)) eqn:E.
+  - apply is_empty_elem_name in E. subst n. discriminate.
+  - rewrite (H2n _ Hv). discriminate.
+Qed.
+
+Lemma fst_strip3 e : fst (fst (strip3 e)) = fst (fst e).
+Proof. destruct e as [[? ?] ?]; reflexivity. Qed.
+
+Lemma read_query_kids_strip es : forall acc acc',
+  read_query_kids es acc = Some acc' -> read_query_kids (map strip3 es) acc = Some acc'.
+Proof.
+  induction es as [|e es IH]; cbn [read_query_kids map]; intros acc acc' H; auto. rewrite fst_strip3.
+  destruct (is_sel_name (fst (fst e))).
+  { destruct (qa_sel acc); [discriminate|]. apply obind_some in H. destruct H as [s [Hs H]].
+    rewrite (read_sel_strip _ _ Hs). cbn [obind]. apply IH, H. }
+  destruct (qname_eqb (fst (fst e)) (C "filter")).
+  { destruct (qa_filter acc); [discriminate|]. apply obind_some in H. destruct H as [s [Hs H]].
+    rewrite (read_filter_strip _ _ Hs). cbn [obind]. apply IH, H. }
+  destruct (qname_eqb (fst (fst e)) (C "limit")); [|discriminate].
+  destruct (qa_limit acc); [discriminate|]. apply obind_some in H. destruct H as [s [Hs H]].
+  rewrite (read_limit_strip _ _ Hs). cbn [obind]. apply IH, H.
+Qed.
+
+Lemma read_href_strip e h : read_href e = Some h -> read_href (strip3 e) = Some h.
+Proof.
+  destruct e as [[n a] k]. unfold strip3, read_href. cbn [fst snd].
+  destruct (qname_eqb n (D "href")); [|discriminate].
+  destruct (attrs_ok [] a) eqn:Ea; [|discriminate]. rewrite (attrs_ok_strip _ _ Ea). cbn [andb negb].
+  rewrite pcdata_strip. auto.
+Qed.
+
+Lemma read_multiget_kids_strip es : forall sel x,
+  read_multiget_kids es sel = Some x -> read_multiget_kids (map strip3 es) sel = Some x.
+Proof.
+  induction es as [|e es IH]; cbn [read_multiget_kids map]; intros sel x H; auto. rewrite fst_strip3.
+  destruct (is_sel_name (fst (fst e))).
+  { destruct sel; [discriminate|]. apply obind_some in H. destruct H as [s [Hs H]].
+    rewrite (read_sel_strip _ _ Hs). cbn [obind]. apply IH, H. }
+  destruct (qname_eqb (fst (fst e)) (D "href")); [|discriminate].
+  apply obind_some in H. destruct H as [h [Hh H]]. rewrite (read_href_strip _ _ Hh). cbn [obind].
+  apply obind_some in H. destruct H as [rest [Hr H]]. rewrite (IH _ _ Hr). exact H.
+Qed.
+
+(** the reader accepts the filtered document as the same request *)
+Theorem rfc_read_strip d r : rfc_read d = Some r -> rfc_read (strip_qualified d) = Some r.
+Proof.
+  destruct d as [n a k| |]; try discriminate. cbn [strip_qualified]. unfold rfc_read.
+  destruct (qname_eqb n (C "addressbook-query")).
+  - unfold read_query. destruct (attrs_ok [] a) eqn:Ea; [|discriminate]. rewrite (attrs_ok_strip _ _ Ea). cbn [negb].
+    destruct (elems k) as [es|] eqn:Ek; cbn [obind]; [|discriminate]. rewrite (elems_strip _ _ Ek). cbn [obind].
+    intros H. apply obind_some in H. destruct H as [q [Hq H]]. apply obind_some in Hq. destruct Hq as [acc [Hacc Hq]].
+    rewrite (read_query_kids_strip _ _ _ Hacc). cbn [obind]. rewrite Hq. exact H.
+  - destruct (qname_eqb n (C "addressbook-multiget")); [|discriminate].
+    unfold read_multiget. destruct (attrs_ok [] a) eqn:Ea; [|discriminate]. rewrite (attrs_ok_strip _ _ Ea). cbn [negb].
+    destruct (elems k) as [es|] eqn:Ek; cbn [obind]; [|discriminate]. rewrite (elems_strip _ _ Ek). cbn [obind].
+    intros H. apply obind_some in H. destruct H as [m [Hm H]]. apply obind_some in Hm. destruct Hm as [x [Hx Hm]].
+    rewrite (read_multiget_kids_strip _ _ _ Hx). cbn [obind]. rewrite Hm. exact H.
+Qed.
+
+(** the filtered document carries no colliding declaration *)
+Lemma strip_attrs_nc n a : attr_collides (attr_fields n) (strip_attrs a) = false.
+Proof.
+  unfold attr_collides. apply existsb_false'. intros x Hx.
+  unfold strip_attrs in Hx. apply filter_In in Hx. destruct Hx as [_ Hu].
+  unfold unqualified in Hu. apply String.eqb_eq in Hu.
+  unfold is_nsdecl. rewrite Hu. cbn [String.eqb orb andb].
+  destruct (String.eqb (snd (fst x)) "xmlns") eqn:E; [|reflexivity].
+  apply String.eqb_eq in E. rewrite E. unfold attr_fields.
+  destruct (qname_eqb n (C "filter")); [reflexivity|]. destruct (qname_eqb n (C "prop-filter")); [reflexivity|].
+  destruct (qname_eqb n (C "param-filter")); [reflexivity|]. destruct (qname_eqb n (C "text-match")); reflexivity.
+Qed.
+
+Lemma strip_nc t : collides (strip_qualified t) = false.
+Proof.
+  induction t as [n a k IH|s|s] using xtree_ind2; try reflexivity.
+  cbn [strip_qualified collides]. rewrite strip_attrs_nc. cbn [orb].
+  induction IH as [|x k Hx _ IHk]; simpl; auto. rewrite Hx, IHk. reflexivity.
+Qed.
+
+(** C09_server_denotes: every document the RFC reader accepts - whatever wrote it -
+    reaches the backend as the request it denotes *)
+Theorem server_denotes_read up path d r c :
+  rfc_read d = Some r -> limit_fits r = true -> backend_call_of up path r = Some c ->
+  exists o, handle_report up path d = Ok o /\ canon_outcome o = c.
+Proof.
+  intros H Hl Hb. unfold handle_report.
+  apply (server_denotes_decoded up path _ r c); auto using rfc_read_strip, strip_nc.
+Qed.
+
 (* ------------------------------------------------------------------------- *)
 (** * Every lexical variant of a written request reaches the backend as that request *)
 
 Theorem server_denotes_variants up path r d c :
-  wf_request r = true -> var (rfc_write r) d -> collides d = false -> limit_fits r = true ->
+  wf_request r = true -> var (rfc_write r) d -> limit_fits r = true ->
   backend_call_of up path r = Some c ->
   exists o, handle_report up path d = Ok o /\ canon_outcome o = c.
 Proof.
-  intros W V Hc Hl Hb. apply (server_denotes_read up path d r c); auto.
+  intros W V Hl Hb. apply (server_denotes_read up path d r c); auto.
   rewrite (rfc_read_var _ _ V). apply rfc_codec, W.
 Qed.
 
@@ -107,8 +420,6 @@ Proof.
   intros H Hl. destruct (client_query_conformant q r H) as [d [Ed Rd]].
   exists d. split; [exact Ed|].
   apply (server_denotes_read up path d (RQuery r)); auto.
-  - unfold client_query_doc in Ed. destruct (query_address_book q) as [w| |] eqn:Ew; try discriminate.
-    cbn [bind] in Ed. inversion Ed; subst. eapply query_nc; eauto.
   - unfold den_query in H. apply obind_some in H. destruct H as [t [_ H]].
     apply obind_some in H. destruct H as [fs [_ H]]. inversion H; subst.
     cbn [limit_fits rq_limit]. unfold den_limit. destruct (0 <? q_limit q)%Z eqn:E; [|reflexivity].
@@ -134,7 +445,7 @@ Proof.
   intros Hhs Hup.
   pose proof (client_multiget_doc_reads us path0 mg hs Hhs) as R.
   destruct (server_denotes_read up path _ _
-              (CallsGet (map (fun p => (p, norm_data (mg_data mg))) hs)) R (multiget_nc us path0 mg) eq_refl)
+              (CallsGet (map (fun p => (p, norm_data (mg_data mg))) hs)) R eq_refl)
     as [o [Ho Co]].
   - cbn [backend_call_of rm_hrefs rm_sel]. rewrite (omapM_up_us us up hs Hup). cbn [obind].
     rewrite client_sel_data. reflexivity.
@@ -142,13 +453,14 @@ Proof.
 Qed.
 
 (* ------------------------------------------------------------------------- *)
-(** * The known finding C09-nsdecl-as-attribute: witnesses *)
+(** * The repaired defect "namespace declaration taken for an attribute": witnesses.
+      [handle_decoded] on the unfiltered tree is the code before the repair. *)
 
 Definition kf_up : string -> option string := fun _ => None.
 Definition kf_path : string := "/ab/book/".
 
 (** [<C:prop-filter name="FN" xmlns:name="urn:x"/>]: the declaration of the (unused)
-    prefix "name" is taken for the attribute name: the backend is asked about a
+    prefix "name" was taken for the attribute name: the backend was asked about a
     property called "urn:x". *)
 Definition kf_x_altered : x_request :=
   XQuery (mkXQ RSelNone None [mkXF "FN" None (XPropMatches [] [])] None).
@@ -156,27 +468,24 @@ Definition kf_doc_altered : xtree :=
   Elem (C "addressbook-query") []
     [Elem (C "filter") []
        [Elem (C "prop-filter") [plain_attr "name" "FN"; (("xmlns", "name"), "urn:x")] []]].
-Definition kf_obs_altered : server_obs :=
-  mkSO false 207 [(kf_path, mkQ dr_zero [mkPF "urn:x" "" false [] []] "" 0%Z)] [].
 
-(** [<C:filter xmlns:test="DAV:">]: the declaration is taken for the attribute test,
-    whose value is not a filter test: the conformant request is refused. *)
+(** [<C:filter xmlns:test="DAV:">]: the declaration was taken for the attribute test,
+    whose value is not a filter test: the conformant request was refused. *)
 Definition kf_x_refused : x_request := XQuery (mkXQ RSelNone None [] None).
 Definition kf_doc_refused : xtree :=
   Elem (C "addressbook-query") [] [Elem (C "filter") [(("xmlns", "test"), "DAV:")] []].
-Definition kf_obs_refused : server_obs := mkSO false 400 [] [].
 
-Theorem nsdecl_as_attribute_refuted :
+Theorem nsdecl_as_attribute_repaired :
   (rfc_read kf_doc_altered = validate kf_x_altered /\
    var (rfc_write_raw kf_x_altered) kf_doc_altered /\
-   server_agrees kf_up kf_path kf_doc_altered kf_obs_altered = true /\
-   kf_nsdecl kf_up kf_path kf_x_altered kf_doc_altered kf_obs_altered = true /\
-   server_spec_ok kf_up kf_path kf_x_altered kf_doc_altered kf_obs_altered = false) /\
+   handle_decoded kf_up kf_path kf_doc_altered
+     = Ok (CallQuery kf_path (mkQ dr_zero [mkPF "urn:x" "" false [] []] "" 0%Z)) /\
+   handle_report kf_up kf_path kf_doc_altered
+     = Ok (CallQuery kf_path (mkQ dr_zero [mkPF "FN" "" false [] []] "" 0%Z))) /\
   (rfc_read kf_doc_refused = validate kf_x_refused /\
    var (rfc_write_raw kf_x_refused) kf_doc_refused /\
-   server_agrees kf_up kf_path kf_doc_refused kf_obs_refused = true /\
-   kf_nsdecl kf_up kf_path kf_x_refused kf_doc_refused kf_obs_refused = true /\
-   server_spec_ok kf_up kf_path kf_x_refused kf_doc_refused kf_obs_refused = false).
+   handle_decoded kf_up kf_path kf_doc_refused = Err 400 /\
+   handle_report kf_up kf_path kf_doc_refused = Ok (CallQuery kf_path (mkQ dr_zero [] "" 0%Z))).
 Proof.
   split; (split; [vm_compute; reflexivity|]); (split; [|vm_compute; auto]).
   - unfold kf_doc_altered, kf_x_altered. cbn. apply V_elem; [apply Permutation_refl|].
@@ -464,8 +773,8 @@ Proof.
 Qed.
 
 (** C09_enumerations, wire-to-backend direction *)
-Theorem server_refuses_invalid_enum up path d :
-  doc_bad_enum d = true -> handle_report up path d = Err 400.
+Theorem decoded_refuses_invalid_enum up path d :
+  doc_bad_enum d = true -> handle_decoded up path d = Err 400.
 Proof.
   destruct d as [n a k| |]; simpl; try discriminate. intros H. apply andb_true_iff in H. destruct H as [Hn H].
   change (NS_CARD, "addressbook-query") with (C "addressbook-query"). rewrite Hn.
@@ -473,6 +782,35 @@ Proof.
   replace (check_name NS_CARD "addressbook-query" (C "addressbook-query")) with true by reflexivity. cbn [negb].
   rewrite (walk_fail q_step f_bad o4_q_step q_step_bad k wq_zero H). reflexivity.
 Qed.
+
+Theorem server_refuses_invalid_enum up path d :
+  doc_bad_enum (strip_qualified d) = true -> handle_report up path d = Err 400.
+Proof. apply decoded_refuses_invalid_enum. Qed.
+
+(** documents all of whose attributes are in no namespace pass the filter unchanged *)
+Fixpoint all_unq (t : xtree) : bool :=
+  match t with
+  | Elem n a k => forallb unqualified a && forallb all_unq k
+  | _ => true
+  end.
+
+Lemma filter_id {A} (f : A -> bool) l : forallb f l = true -> filter f l = l.
+Proof.
+  induction l as [|x l IH]; simpl; auto. intros H. apply andb_true_iff in H. destruct H as [Hx Hl].
+  rewrite Hx, (IH Hl). reflexivity.
+Qed.
+
+Lemma strip_id t : all_unq t = true -> strip_qualified t = t.
+Proof.
+  induction t as [n a k IH|s|s] using xtree_ind2; try reflexivity.
+  cbn [all_unq strip_qualified]. intros H. apply andb_true_iff in H. destruct H as [Ha Hk].
+  unfold strip_attrs. rewrite (filter_id _ _ Ha). f_equal.
+  induction IH as [|x k Hx _ IHk]; [reflexivity|]. cbn [forallb] in Hk. apply andb_true_iff in Hk.
+  destruct Hk as [H1 H2]. cbn [map]. rewrite (Hx H1), (IHk H2). reflexivity.
+Qed.
+
+Lemma all_unq_map {A} (f : A -> xtree) l : (forall x, all_unq (f x) = true) -> forallb all_unq (map f l) = true.
+Proof. intros H. induction l; simpl; auto. rewrite H, IHl. reflexivity. Qed.
 
 (** ** the documents written for raw requests with an invalid enumeration value *)
 
@@ -552,11 +890,49 @@ Qed.
 (** C09_enumerations for the reference's documents: a raw request with a string outside
     the value lists as test, match-type or negate-condition is not read by the RFC
     reader (C09_rfc_reads_exactly_conformant) and is refused by the server *)
+Lemma write_tm_unq t : all_unq (write_tm t) = true.
+Proof. destruct t as [s [?|] [?|]]; unfold write_tm, text_kid; cbn; destruct (str_empty s); reflexivity. Qed.
+
+Lemma write_param_unq p : all_unq (write_param p) = true.
+Proof.
+  unfold write_param. cbn [all_unq forallb plain_attr unqualified fst String.eqb andb].
+  destruct (xp_cond p); cbn [forallb]; rewrite ?write_tm_unq; reflexivity.
+Qed.
+
+Lemma write_pf_unq f : all_unq (write_pf f) = true.
+Proof.
+  unfold write_pf. cbn [all_unq].
+  replace (forallb unqualified _) with true by (destruct (xf_test f); reflexivity). cbn [andb].
+  destruct (xf_cond f); [reflexivity|]. rewrite forallb_app, !all_unq_map; auto using write_tm_unq, write_param_unq.
+Qed.
+
+Lemma write_item_unq i : all_unq (write_item i) = true.
+Proof.
+  destruct i as [d|n]; [|reflexivity]. unfold write_item, write_data. cbn [all_unq forallb andb].
+  destruct d; [reflexivity|]. apply all_unq_map. intros; reflexivity.
+Qed.
+
+Lemma write_sel_unq s : forallb all_unq (write_sel s) = true.
+Proof.
+  destruct s; try reflexivity. cbn [write_sel forallb all_unq andb]. rewrite all_unq_map; auto using write_item_unq.
+Qed.
+
+Lemma rfc_write_raw_unq x : all_unq (rfc_write_raw x) = true.
+Proof.
+  destruct x as [q|m]; cbn [rfc_write_raw].
+  - unfold write_query. cbn [all_unq forallb andb]. rewrite !forallb_app, write_sel_unq. cbn [andb forallb all_unq].
+    replace (forallb unqualified (opt_attr "test" (xq_test q))) with true by (destruct (xq_test q); reflexivity).
+    cbn [andb]. rewrite all_unq_map by apply write_pf_unq. cbn [andb].
+    destruct (xq_limit q) as [s|]; [|reflexivity]. unfold write_limit, text_kid. destruct (str_empty s); reflexivity.
+  - unfold write_multiget. cbn [all_unq forallb andb]. rewrite forallb_app, write_sel_unq. cbn [andb].
+    apply all_unq_map. intros h. unfold text_kid. destruct (str_empty h); reflexivity.
+Qed.
+
 Theorem server_refuses_written_invalid_enum up path x :
   enum_bad x = true -> handle_report up path (rfc_write_raw x) = Err 400.
 Proof.
-  intros H. apply server_refuses_invalid_enum. destruct x as [q|m]; [|discriminate].
-  apply write_query_bad, H.
+  intros H. apply server_refuses_invalid_enum. rewrite (strip_id _ (rfc_write_raw_unq x)).
+  destruct x as [q|m]; [|discriminate]. apply write_query_bad, H.
 Qed.
 
 (* ------------------------------------------------------------------------- *)
@@ -622,8 +998,7 @@ Theorem server_denotes_raw up path x r c :
   exists o, handle_report up path (rfc_write_raw x) = Ok o /\ canon_outcome o = c.
 Proof.
   intros V Hl Hb. apply (server_denotes_read up path _ r c); auto.
-  - apply (rfc_read_write_conformant x r V).
-  - apply rfc_write_raw_nc.
+  apply (rfc_read_write_conformant x r V).
 Qed.
 
 (** C09_defaults *)
@@ -968,6 +1343,55 @@ Proof.
   - destruct (mapM_panic _ _ E) as [p [_ Hp]]. destruct (encode_pf_cases p) as [[w Hw]|Hw]; congruence.
 Qed.
 
+Lemma marshal_tm_unq w : all_unq (marshal_text_match w) = true.
+Proof.
+  destruct w as [text coll ng mt]. unfold marshal_text_match, el, at_omitempty, text_kid.
+  cbn [wtm_text wtm_collation wtm_negate wtm_match].
+  destruct (str_empty coll), ng, (str_empty mt), (str_empty text); reflexivity.
+Qed.
+
+Lemma marshal_param_unq w : all_unq (marshal_param_filter w) = true.
+Proof.
+  destruct w as [name ind tm]. unfold marshal_param_filter, el. cbn [wpa_name wpa_ind wpa_tm].
+  cbn [all_unq]. replace (forallb unqualified _) with true by reflexivity. cbn [andb].
+  rewrite forallb_app. destruct ind; cbn [flag_kid forallb]; destruct tm; cbn [opt_kid forallb]; rewrite ?marshal_tm_unq; reflexivity.
+Qed.
+
+Lemma marshal_pf_unq w : all_unq (marshal_prop_filter w) = true.
+Proof.
+  destruct w as [name test ind tms ps]. unfold marshal_prop_filter, el, at_omitempty.
+  cbn [wpf_name wpf_test wpf_ind wpf_tms wpf_params]. cbn [all_unq].
+  replace (forallb unqualified _) with true by (destruct (str_empty test); reflexivity). cbn [andb].
+  rewrite !forallb_app, !all_unq_map; auto using marshal_tm_unq, marshal_param_unq.
+  destruct ind; reflexivity.
+Qed.
+
+Lemma marshal_prop_unq dr : all_unq (marshal_prop (encode_address_prop_req dr)) = true.
+Proof.
+  unfold marshal_prop, encode_address_prop_req, el. cbn [map marshal_raw DAV_getlastmodified DAV_getetag all_unq].
+  replace (forallb unqualified [nsd NS_DAV]) with true by reflexivity. cbn [andb forallb].
+  replace (all_unq (Elem (NS_DAV, "getlastmodified") [nsd NS_DAV] [])) with true by reflexivity.
+  replace (all_unq (Elem (NS_DAV, "getetag") [nsd NS_DAV] [])) with true by reflexivity.
+  rewrite !andb_true_r.
+  unfold marshal_address_data, el. destruct (dr_allprop dr); cbn [wad_props wad_allprop map flag_kid app all_unq].
+  - reflexivity.
+  - replace (forallb unqualified [nsd NS_CARD]) with true by reflexivity. cbn [andb]. rewrite app_nil_r.
+    apply all_unq_map. intros; reflexivity.
+Qed.
+
+Lemma marshal_query_unq q w : query_address_book q = Ok w -> all_unq (marshal_query w) = true.
+Proof.
+  unfold query_address_book. destruct (mapM encode_prop_filter (q_filters q)) as [pfs| |]; try discriminate.
+  cbn [bind]. intros H; inversion H; subst w; clear H.
+  unfold marshal_query, el. cbn [wq_prop wq_allprop wq_propname wq_filter wq_limit opt_kid flag_kid app all_unq].
+  replace (forallb unqualified [nsd NS_CARD]) with true by reflexivity. cbn [andb forallb].
+  rewrite marshal_prop_unq. cbn [andb].
+  unfold marshal_filter, el, at_omitempty. cbn [wf_test wf_props all_unq].
+  replace (forallb unqualified (nsd NS_CARD :: _)) with true by (destruct (str_empty (q_test q)); reflexivity).
+  cbn [andb]. rewrite all_unq_map by apply marshal_pf_unq. cbn [andb].
+  destruct (0 <? q_limit q)%Z; reflexivity.
+Qed.
+
 (** C09_enumerations, client-to-backend direction: a query that denotes no request (an
     unknown test or match-type string, or a filter with is-not-defined next to other
     conditions) either is not sent, or is sent as a document that the RFC reader rejects
@@ -981,7 +1405,8 @@ Proof.
   - right. exists (marshal_query w). split; [reflexivity|]. split.
     + assert (D : client_query_doc q = Ok (marshal_query w)) by (unfold client_query_doc; rewrite E; reflexivity).
       rewrite (client_query_reads q _ D), H. reflexivity.
-    + apply server_refuses_invalid_enum, (marshal_query_bad q w E H).
+    + apply server_refuses_invalid_enum. rewrite (strip_id _ (marshal_query_unq q w E)).
+      apply (marshal_query_bad q w E H).
   - left. reflexivity.
 Qed.
 
@@ -1128,19 +1553,19 @@ Qed.
 
 (** server stage, conformant documents *)
 Theorem server_agree_implies_spec_conformant up path x d o r :
-  validate x = Some r -> rfc_read d = Some r -> collides d = false ->
+  validate x = Some r -> rfc_read d = Some r ->
   server_agrees up path d o = true -> server_spec_ok up path x d o = true.
 Proof.
-  intros V R Hc A. unfold server_spec_ok. rewrite V, R. cbn [opt_eqb]. rewrite request_eqb_refl. cbn [andb].
+  intros V R A. unfold server_spec_ok. rewrite V, R. cbn [opt_eqb]. rewrite request_eqb_refl. cbn [andb].
   destruct (limit_fits r) eqn:L; [|reflexivity].
   destruct (backend_call_of up path r) as [c|] eqn:B; [|reflexivity].
-  destruct (server_denotes_read up path d r c R Hc L B) as [oc [Ho Co]].
+  destruct (server_denotes_read up path d r c R L B) as [oc [Ho Co]].
   unfold server_agrees in A. rewrite Ho in A. subst c. apply obs_matches_canon, A.
 Qed.
 
 (** server stage, documents with an invalid enumeration value *)
 Theorem server_agree_implies_spec_bad_enum up path x d o :
-  validate x = None -> doc_bad_enum d = true ->
+  validate x = None -> doc_bad_enum (strip_qualified d) = true ->
   server_agrees up path d o = true -> server_spec_ok up path x d o = true.
 Proof.
   intros V Bd A. unfold server_spec_ok. rewrite V.
@@ -1148,16 +1573,4 @@ Proof.
   cbn [obs_matches] in A. apply andb_true_iff in A. destruct A as [A Hn]. apply andb_true_iff in A. destruct A as [Hp Hs].
   apply N.eqb_eq in Hs. rewrite Hs, Hn. apply negb_true_iff in Hp. rewrite Hp. cbn [negb andb].
   destruct (enum_bad x); reflexivity.
-Qed.
-
-(** hence, outside the known finding's selector, agreement entails the specification *)
-Theorem server_kf_or_spec up path x d o r :
-  validate x = Some r -> rfc_read d = Some r ->
-  server_agrees up path d o = true ->
-  kf_nsdecl up path x d o = false -> server_spec_ok up path x d o = true.
-Proof.
-  intros V R A K. unfold kf_nsdecl in K. rewrite A in K. cbn [andb] in K.
-  destruct (collides d) eqn:Hc; cbn [andb] in K.
-  - apply negb_false_iff in K. exact K.
-  - apply (server_agree_implies_spec_conformant up path x d o r); auto.
 Qed.
